@@ -11,6 +11,7 @@ newline byte they stand for) and may share an offset with the next token; the BO
 is skipped like white space; `c"…"`/`py"…"`: the literal is the string part.
 -/
 import GopModel.Lemmas.ScanRun
+import GopModel.Lemmas.ScanSpecials
 namespace GopModel.Scan.C15
 open GopModel.Generated GopModel.Scan
 
